@@ -52,23 +52,23 @@ type Obligation struct {
 }
 
 type Ctx struct {
-	Prop     string
-	Tier     string
-	RepoDir  string
-	Fset     *token.FileSet
-	Pkgs     []*packages.Package
-	PkgByID  map[string]*packages.Package
-	Prog     *ssa.Program
-	SSA      map[string]*ssa.Package // by package path
-	AllFuncs map[*ssa.Function]bool  // every function with a body in repo packages (incl. closures)
-	Obls     []*Obligation
-	oblIndex map[string]*Obligation
-	Notes    []string
-	Rules    map[string]string // rule id -> rule text
-	Floors   map[string]int    // rule id -> minimum obligation count
-	start    time.Time
+	Prop      string
+	Tier      string
+	RepoDir   string
+	Fset      *token.FileSet
+	Pkgs      []*packages.Package
+	PkgByID   map[string]*packages.Package
+	Prog      *ssa.Program
+	SSA       map[string]*ssa.Package // by package path
+	AllFuncs  map[*ssa.Function]bool  // every function with a body in repo packages (incl. closures)
+	Obls      []*Obligation
+	oblIndex  map[string]*Obligation
+	Notes     []string
+	Rules     map[string]string // rule id -> rule text
+	Floors    map[string]int    // rule id -> minimum obligation count
+	start     time.Time
 	CallSites int
-	cg       *cgCache
+	cg        *cgCache
 }
 
 func goEnv() []string {
@@ -147,8 +147,10 @@ func Load(repo string, overlay map[string][]byte) (*Ctx, error) {
 // symbol lookup
 
 // Fn finds a function by package path suffix and name:
-//   Fn("poc/wallet/keystore", "export")
-//   Fn("poc/wallet/keystore", "(*AddrManager).exportKeystore")
+//
+//	Fn("poc/wallet/keystore", "export")
+//	Fn("poc/wallet/keystore", "(*AddrManager).exportKeystore")
+//
 // Returns nil if absent (callers report anchor-missing).
 func (c *Ctx) Fn(pkgSuffix, name string) *ssa.Function {
 	p := c.SSA[repoMod+"/"+pkgSuffix]
